@@ -17,7 +17,7 @@ RULE = ('Properties: every scope kind x pattern kind x widths 1-3 in the non-act
         'topics of the property x payloads {0,1} x gaps {1,2} (L = 3 quick; L = 4 thorough, 5 for properties over '
         '<= 2 topics). evaluations = (property, trace, reading) triples; non-trivial = some width > 1 and the trace '
         'contains a split topic; distinct = (property shape, trace length, verdict). Exhaustive up to L.')
-RULE_ADDED = ' Since the seeding rounds: bounds 0 s and 1500 ms, properties derived with but() from a canonicalised one, binding-sensitive mode, alternatives sharing one alias, a grid with the literal predicates { False } / { True } on every event position in turn.'
+RULE_ADDED = ' Since the seeding rounds: bounds 0 s and 1500 ms, properties derived with but() from a canonicalised one, binding-sensitive mode, alternatives sharing one alias, a grid with the literal predicates { False } / { True } on every event position in turn, time-bound twins (the same events under another bound, one after the other).'
 ASSUMPTIONS = ['trace semantics of DESIGN.md 4.2 (my reading of docs/lang.md): windows exclusive at both ends, bound '
                'measured from the window start (absence/existence) or from the trigger/behaviour (binary patterns); '
                'both readings R1 (first activation only) and R2 (re-activation) are run']
@@ -145,8 +145,14 @@ def run(ctx):
     def cases():
         for n in range(n_props):
             sk, pk, widths = cells[(n * ctx.nshards + ctx.shard) % len(cells)]
-            yield n, sk, pk, widths, make_property(rng, sk, pk, widths, binding_sensitive=(
+            p0 = make_property(rng, sk, pk, widths, binding_sensitive=(
                 n % 4 == 3 or (sk in ('after', 'after_until') and n % 4 != 0)))
+            yield n, sk, pk, widths, p0
+            if n % 3 == 0:
+                # history: the same scope and events under another time bound (or none), right after the first one
+                others = [t for t in (None, ('1', 's'), ('2', 's'), ('1500', 'ms')) if t != p0[3][4]]
+                ctx.count('time_bound_twins')
+                yield 1000003 + 3 * n, sk, pk, widths, gen.assemble(sk, pk, dict(A.prop_positions(p0)), gen.pick(rng, others))
         # constant grid: every event position in turn (all of its alternatives) carries the literal predicate
         # { False } or { True } - events that can never / always be observed
         n = n_props
